@@ -13,7 +13,7 @@
                              The code's own tolerances force it: an uncovered deficit leaves every excess <= eps, not 0,
                              and math.isclose may cover a deficit that exceeds the donor's excess by 1e-9 relative. *)
 From Coq Require Import QArith List.
-From Verif Require Import model.Dist proofs.DistFacts proofs.DistBounds proofs.DistTop proofs.DistRemainder proofs.DistWitness.
+From Verif Require Import model.Dist model.DistMgr proofs.DistFacts proofs.DistMgrFacts proofs.DistBounds proofs.DistTop proofs.DistRemainder proofs.DistWitness.
 Import ListNotations.
 Open Scope Q_scope.
 
@@ -26,6 +26,14 @@ Proof. exact distribute_sum. Qed.
 Theorem C01_reported_is_commanded : forall powf gs p rr,
   czero p = false -> run_request powf gs p = Some rr -> res_distributed rr == sumsp (res_dist (rr_res rr)).
 Proof. exact request_reported. Qed.
+
+(* through BatteryManager (model/DistMgr.v: _check_request on the enforced bounds, then the algorithm on the latest
+   data): for every served request the recorded set_power calls + excess == request and succeeded == commanded *)
+Theorem C01_manager_conserves : forall powf gs p adj rr,
+  czero p = false -> manager_request powf gs p adj = MDone rr ->
+  sumsp (res_dist (rr_res rr)) + res_rem (rr_res rr) == p /\
+  res_distributed rr == sumsp (res_dist (rr_res rr)).
+Proof. exact manager_conserves. Qed.
 
 (* every set-point has the request's sign or is zero: exact, no condition on the run or on admission *)
 Theorem C01_sign : forall powf gs p r,
@@ -63,6 +71,7 @@ Proof. exact (conj ex_wf (conj ex_admitted (conj ex_slack_small ex_runs))). Qed.
 
 Print Assumptions C01_sum.
 Print Assumptions C01_reported_is_commanded.
+Print Assumptions C01_manager_conserves.
 Print Assumptions C01_sign.
 Print Assumptions C01_remainder.
 Print Assumptions C01_remainder_slack_formula.
